@@ -139,10 +139,9 @@ Fixpoint run_draws (imgs : list (list (list spx) * N)) (st : hstate)
         end in
       let st' := snd (hdraw sixel_cache_limit st key (match impl with [] => None | _ => Some impl end)) in
       let h :=
-        first_draw_holds rows impl &&
         match drawn_before rows seen with
-        | Some bytes => nlist_eqb bytes impl
-        | None => true
+        | Some bytes => nlist_eqb bytes impl       (* the same bytes were decoded and checked for this content *)
+        | None => first_draw_holds rows impl
         end in
       let '(a', h') := run_draws imgs st' ((rows, impl) :: seen) r in
       (a && a', h && h')
